@@ -17,11 +17,15 @@ LEVEL_TEXT = ("Bounded history contract on the real Pipeline.map / create_learne
               "map(fixed_indices=part, cleanup=False) is run per part in a random order: every part computes precisely "
               "the newly selected elements, the final stored data equal the reference denotation and a final full run "
               "computes nothing; the same for the learners of create_learners (with and without "
-              "split_independent_axes) driven in random order within each generation. numpy mask indexing and the "
-              "adaptive learners are outside the proof rung: 'exploration'.")
+              "split_independent_axes) driven in random order within each generation. Proved part (pyvc): "
+              "_existing_and_missing_indices - a piece's work list is exactly the increasing list of *selected* "
+              "(fixed-mask) indices with some output absent, for all arrays and masks; building the mask "
+              "(_mask_fixed_axes: numpy fancy indexing) and the adaptive learners are outside the proof rung, so the "
+              "property itself is decided on the bounded rung: 'exploration'.")
 LEVEL_NOTE = ("Bounds: programs of 1..3 functions, rank<=2, axis sizes 1..3, storage file_array / dict. Trusted: "
               "reference denotation (incl. the reference notion of a reduced axis, from the statement), adaptive 1.5.")
-TECHNIQUE = "bounded history-contract checking of partial runs against the reference denotation (no deductive part)"
+TECHNIQUE = ("bounded history-contract checking of partial runs against the reference denotation; work-list function "
+             "_existing_and_missing_indices discharged by z3")
 EXPLANATION = LEVEL_TEXT
 RULE = ("program x axis x random partition (ints / slices with steps +-1, +-2) x random order; plus invalid requests "
         "(reduced axis, unknown axis, out of range); distinct = distinct (program, axis, partition, order); "
@@ -31,11 +35,15 @@ ASSUMPTIONS = ["user functions deterministic"]
 
 
 def registry():
-    return {}
+    from contracts import misc
+    return {**{c.short: c for c in misc.ALL}, **{c.name: c for c in misc.ALL}}
 
 
 def proof_items():
-    return []
+    from contracts import misc
+    from vf.driver import ProofItem
+    # which elements a piece computes: exactly the selected (fixed-mask) indices that are not stored yet
+    return [ProofItem(misc.existing_and_missing, gen=misc.em_gen, call=misc.em_call)]
 
 
 # ---- reference notions ------------------------------------------------------------------------------------------
